@@ -1,0 +1,36 @@
+//! Verification hooks, compiled only with `--cfg eyeball_verif`.
+//!
+//! `drain_point(point)` calls a thread-local callback (if one is installed) immediately before
+//! every `try_recv` of the drain loops in `vector/subscriber.rs` (the batched stream's loop and
+//! `handle_lag`), so that a test harness can mutate or drop the `ObservableVector` *between* two
+//! receive attempts of one poll, as a sender on another thread could. Without the cfg flag this
+//! module and every call to it do not exist.
+#![allow(missing_docs, missing_debug_implementations)]
+
+use std::cell::RefCell;
+
+type Hook = Box<dyn FnMut(&'static str)>;
+
+thread_local! {
+    static HOOK: RefCell<Option<Hook>> = RefCell::new(None);
+}
+
+/// Install (or remove) this thread's callback.
+pub fn set_drain_hook(hook: Option<Hook>) {
+    HOOK.with(|h| *h.borrow_mut() = hook);
+}
+
+/// Called by the library before a `try_recv` inside a drain loop.
+pub fn drain_point(point: &'static str) {
+    // the callback is taken out while it runs so that it may itself poll a stream
+    let hook = HOOK.with(|h| h.borrow_mut().take());
+    if let Some(mut hook) = hook {
+        hook(point);
+        HOOK.with(|h| {
+            let mut slot = h.borrow_mut();
+            if slot.is_none() {
+                *slot = Some(hook);
+            }
+        });
+    }
+}
